@@ -24,7 +24,7 @@ pub enum Strategy {
     RoundRobin { q: usize },
     /// decision index -> thread; otherwise keep the current thread if enabled, else lowest enabled
     #[serde(rename = "script")]
-    Script { decisions: BTreeMap<usize, usize> },
+    Script { decisions: Vec<(usize, usize)> },
 }
 
 #[derive(Clone, Debug, PartialEq)]
@@ -177,7 +177,7 @@ impl State {
                     }
                 }
             }
-            Strategy::Script { decisions } => match decisions.get(&idx) {
+            Strategy::Script { decisions } => match decisions.iter().find(|(k, _)| *k == idx).map(|(_, t)| t) {
                 Some(t) if enabled.contains(t) => *t,
                 _ => match by {
                     Some(b) if enabled.contains(&b) => b,
@@ -490,7 +490,7 @@ pub fn run_threads(
 }
 
 /// Sparse script reproducing a recorded trace: only the decisions that switched threads.
-pub fn script_of(trace: &[Decision]) -> BTreeMap<usize, usize> {
+pub fn script_of(trace: &[Decision]) -> Vec<(usize, usize)> {
     trace
         .iter()
         .filter(|d| d.by != d.chosen)
